@@ -104,6 +104,7 @@ func (t *Term) Contains(sub string) bool { return strings.Contains(t.String(), s
 type Lit struct {
 	Atom string
 	Val  bool
+	Term *Term
 }
 
 // Path is one enumerated path.
